@@ -37,6 +37,10 @@ GROUPS = {
     "misc": (r"^(Boxed\[Parser\]::boxed|pratt::Operator::boxed|input::Errors\[std::default::Default\]::default|DefaultExpected::into_owned"
              r"|error::RichPattern\[std::convert::From\]::from|EmptyPhantom::new)$", ["C06", "C13", "C09"],
              "re-boxing returns the same parser; a fresh Errors has no pending error; expected-pattern conversions keep their payload"),
+    "inputref-api": (r"^input::InputRef::(next|next_maybe|next_ref|peek|peek_maybe|peek_ref|skip|cursor|state|ctx|slice|slice_from|slice_since|"
+                     r"slice_trailing_inner|span_from|span_since|full_slice)$", ["C10", "C07", "C18", "C01", "C14", "C20"],
+                     "what custom() / ExtParser code sees: next* = the hooked inner reader, peek* = the input's own reader on a COPY of the cursor, "
+                     "slices / spans measured on the cache between the given cursor and the current one"),
     "recursive": (r"^(recursive::(OnceCell::(get|new)|Recursive::parser)|cache::Cache::\w+|cache::Cache\[std::default::Default\]::default)$",
                   ["C12", "C13"], "recursive handle upgrade, cache accessors"),
 }
